@@ -38,7 +38,9 @@ LOCKNODE_H = {"segments": 1, "noise": 2, "coder": 5, "top": 6}
 ENTRY_H = {5: "coder", 6: "top"}
 EVH = {"acq": 1, "rel": 2, "put": 3, "get": 4, "write": 5, "flip": 6, "nsend": 7}
 # events that are scheduling points of the real threads but no steps of the model
-INVISIBLE = ("rdstate", "cb", "iput", "iget", "auth", "deliver", "start", "flipped", "mklock", "line")
+SYNC_KINDS = ("sacq", "srel", "stry", "eset", "eclear", "ewait", "ewait-timed", "macq", "mtry", "mrel", "cwait",
+              "cwait-timed", "cnotify")
+INVISIBLE = ("rdstate", "cb", "iput", "iget", "auth", "deliver", "start", "flipped", "mklock", "line") + SYNC_KINDS
 
 
 # ---------------------------------------------------------------- lock CREATION is instrumented, not lock attributes
@@ -96,25 +98,199 @@ class CLock(object):
         self.release()
 
 
+def _site(depth=2):
+    f = sys._getframe(depth)
+    fn = f.f_code.co_filename.replace(os.sep, "/")
+    return f.f_locals.get("self"), ("/".join(fn.split("/")[-2:]), f.f_code.co_name)
+
+
 def make_lock():
     ctl = CURRENT[0]
-    f = sys._getframe(1)
-    fn = f.f_code.co_filename.replace(os.sep, "/")
-    lk = CLock(ctl, f.f_locals.get("self"), ("/".join(fn.split("/")[-2:]), f.f_code.co_name))
+    owner, site = _site()
+    lk = CLock(ctl, owner, site)
     if ctl is not None:
         ctl.created(lk)
     return lk
 
 
+# ---- the other primitives yowsup code may build a lock from (round 5).  Every blocking operation is a scheduling
+# point the baton scheduler controls (the thread is not runnable until the matching release / set / notify), every
+# non-blocking one a yield point.  None of them is a step of the model (trace kinds s*/e*/c*/m*: scheduling only).
+class _Prim(object):
+    def __init__(self, ctl, owner, site):
+        self.ctl, self.owner, self.site = ctl, owner, site
+        CLock._count[0] += 1
+        self.uid = CLock._count[0]
+
+    def label(self):
+        return "%s@%s" % (self.__class__.__name__[1:], type(self.owner).__name__ if self.owner is not None else "?")
+
+    def _sync(self, kind, pred=None):
+        c = self.ctl
+        if c is not None:
+            c.sync(self, kind, pred)
+
+
+class CRLock(_Prim):
+    def __init__(self, ctl, owner, site):
+        _Prim.__init__(self, ctl, owner, site)
+        self.real = _real_threading.RLock()
+        self._own, self._n = None, 0
+
+    def acquire(self, blocking=True, timeout=-1):
+        me = _real_threading.get_ident()
+        if blocking and timeout == -1:
+            self._sync("sacq", lambda: self._own in (None, me))
+            r = self.real.acquire()
+        else:
+            self._sync("stry")
+            r = self.real.acquire(False)
+        if r:
+            self._own, self._n = me, self._n + 1
+        return r
+
+    def release(self):
+        self._sync("srel")
+        self._n -= 1
+        if self._n == 0:
+            self._own = None
+        self.real.release()
+
+    def __enter__(self):
+        self.acquire()
+        return self
+
+    def __exit__(self, *a):
+        self.release()
+
+
+class CEvent(_Prim):
+    def __init__(self, ctl, owner, site):
+        _Prim.__init__(self, ctl, owner, site)
+        self.real = _real_threading.Event()
+
+    def is_set(self):
+        return self.real.is_set()
+
+    isSet = is_set
+
+    def set(self):
+        self._sync("eset")
+        self.real.set()
+
+    def clear(self):
+        self._sync("eclear")
+        self.real.clear()
+
+    def wait(self, timeout=None):
+        if timeout is None:
+            self._sync("ewait", self.real.is_set)       # flag clear = parked; set() makes the thread runnable
+            return self.real.wait()
+        self._sync("ewait-timed")                       # outcome fixed when granted
+        return self.real.is_set()
+
+
+class CSemaphore(_Prim):
+    def __init__(self, ctl, owner, site, value=1, bounded=False):
+        _Prim.__init__(self, ctl, owner, site)
+        self.real = (_real_threading.BoundedSemaphore if bounded else _real_threading.Semaphore)(value)
+
+    def acquire(self, blocking=True, timeout=None):
+        if blocking and timeout is None:
+            self._sync("macq", lambda: self.real._value > 0)
+            return self.real.acquire()
+        self._sync("mtry")
+        return self.real.acquire(False)
+
+    def release(self, n=1):
+        self._sync("mrel")
+        for _ in range(n):
+            self.real.release()
+
+    def __enter__(self):
+        self.acquire()
+        return self
+
+    def __exit__(self, *a):
+        self.release()
+
+
+class CCondition(_Prim):
+    """threading.Condition re-done on instrumented parts (a waiter = a private lock, as in the standard library)"""
+
+    def __init__(self, ctl, owner, site, lock=None):
+        _Prim.__init__(self, ctl, owner, site)
+        self._lock = lock if lock is not None else CRLock(ctl, owner, site)
+        self._waiters = []
+        self.acquire, self.release = self._lock.acquire, self._lock.release
+
+    def __enter__(self):
+        return self._lock.__enter__()
+
+    def __exit__(self, *a):
+        return self._lock.__exit__(*a)
+
+    def wait(self, timeout=None):
+        w = [False, _RealLock()]
+        w[1].acquire()
+        self._waiters.append(w)
+        self._lock.release()
+        try:
+            if timeout is None:
+                self._sync("cwait", lambda: w[0])
+                w[1].acquire()
+                return True
+            self._sync("cwait-timed")
+            return w[0]
+        finally:
+            if w in self._waiters:
+                self._waiters.remove(w)
+            self._lock.acquire()
+
+    def wait_for(self, predicate, timeout=None):
+        r = predicate()
+        while not r:
+            self.wait(timeout)
+            r = predicate()
+            if timeout is not None:
+                break
+        return r
+
+    def notify(self, n=1):
+        self._sync("cnotify")
+        for w in self._waiters[:n]:
+            w[0] = True
+            w[1].release()
+        del self._waiters[:n]
+
+    def notify_all(self):
+        self.notify(len(self._waiters))
+
+    notifyAll = notify_all
+
+
+def _mk(cls, **fixed):
+    def factory(*a, **k):
+        owner, site = _site()
+        k.update(fixed)
+        return cls(CURRENT[0], owner, site, *a, **k)
+    return factory
+
+
+FACTORIES = {"Lock": make_lock, "RLock": _mk(CRLock), "Event": _mk(CEvent), "Condition": _mk(CCondition),
+             "Semaphore": _mk(CSemaphore), "BoundedSemaphore": _mk(CSemaphore, bounded=True)}
+_REAL = dict((n, getattr(threading, n)) for n in FACTORIES)
+
+
 class _ThreadingProxy(object):
-    """`threading` as seen by one yowsup module: everything real except Lock"""
+    """`threading` as seen by one yowsup module: everything real except the synchronisation primitives"""
 
     def __init__(self, real):
         self.__dict__["_real"] = real
 
     def __getattr__(self, name):
-        if name == "Lock":
-            return make_lock
+        if name in FACTORIES:
+            return FACTORIES[name]
         return getattr(self.__dict__["_real"], name)
 
 
@@ -122,19 +298,78 @@ _installed = []
 
 
 def install_lock_factory():
-    """idempotent; returns the list of (module, name) bindings that were replaced"""
-    if _installed:
-        return _installed
+    """Rebinds, in every loaded yowsup module, the name `threading` (module) and the names Lock / RLock / Event /
+    Condition / Semaphore / BoundedSemaphore imported from it.  Incremental and idempotent (modules imported later
+    are picked up by the next call); returns the list of "module.name" bindings replaced so far."""
     import importlib
     for modname in ("yowsup.layers", "yowsup.layers.noise.layer", "yowsup.layers.protocol_iq.layer"):
-        mod = importlib.import_module(modname)
+        importlib.import_module(modname)
+    for modname in sorted(m for m in list(sys.modules) if m == "yowsup" or m.startswith("yowsup.")):
+        mod = sys.modules.get(modname)
+        if mod is None:
+            continue
         if getattr(mod, "threading", None) is _real_threading:
             mod.threading = _ThreadingProxy(_real_threading)
             _installed.append((modname, "threading"))
-        if getattr(mod, "Lock", None) is _RealLock:
-            mod.Lock = make_lock
-            _installed.append((modname, "Lock"))
+        for n, real in _REAL.items():
+            if mod.__dict__.get(n) is real:
+                setattr(mod, n, FACTORIES[n])
+                _installed.append((modname, n))
     return _installed
+
+
+# ---- a layer lock that is an object of a class written in Python (acquire / release implemented in a yowsup module):
+# the class is instrumented (not the attribute): the moment acquire() RETURNS and the moment release() is CALLED are
+# the acquire / release events of that layer's lock -- what the model knows; what happens inside the class is
+# scheduling-only (its primitives come from the factories above, its source lines are line-level yield points in the
+# escalated enumerations).
+_tls = _real_threading.local()
+CUSTOM_CLASSES = {}       # class -> list of code objects of its own methods
+
+
+def _python_methods(cls):
+    codes = []
+    for klass in cls.__mro__:
+        mod = getattr(klass, "__module__", "") or ""
+        if not mod.startswith("yowsup"):
+            continue
+        for n, f in vars(klass).items():
+            f = getattr(f, "_c11_orig", f)
+            if hasattr(f, "__code__"):
+                codes.append(f.__code__)
+    return codes
+
+
+def instrument_lock_class(cls):
+    if cls in CUSTOM_CLASSES:
+        return
+    CUSTOM_CLASSES[cls] = _python_methods(cls)
+
+    def wrap(name, kind):
+        orig = getattr(cls, name, None)
+        if orig is None or not hasattr(orig, "__code__"):
+            return
+
+        def wrapper(self, *a, **k):
+            depth = getattr(_tls, "depth", 0)
+            ctl = CURRENT[0]
+            if kind == "rel" and depth == 0 and ctl is not None:
+                ctl.boundary(self, "rel")
+            _tls.depth = depth + 1
+            try:
+                r = orig(self, *a, **k)
+            finally:
+                _tls.depth = depth
+            if kind == "acq" and depth == 0 and ctl is not None:
+                ctl.boundary(self, "acq!" if r is not False else "xbusy")
+            return r
+        wrapper._c11_orig = orig
+        wrapper.__name__ = name
+        setattr(cls, name, wrapper)
+    wrap("acquire", "acq")
+    wrap("__enter__", "acq")
+    wrap("release", "rel")
+    wrap("__exit__", "rel")
 
 
 class LockCtl(object):
@@ -146,6 +381,8 @@ class LockCtl(object):
         self.layers = {}          # short name -> layer object
         self.extra = []           # (object, attribute, short name) for locks that are not `layer.lock`
         self.fallback = []        # layers whose lock did not come out of the factory (assigned by the harness)
+        self.custom = {}          # layer -> class of its lock when that is a Python class of yowsup's own
+        self._handles = {}
         self.line_mode = False
 
     # --- naming
@@ -170,14 +407,22 @@ class LockCtl(object):
         return self.by_owner(lk)
 
     def adopt_layers(self, layers, extra=()):
-        """called once the stack exists.  A layer whose lock attribute holds something that is not ours (the library
+        """called once the stack exists.  A layer without a lock yet is left alone (lazy creation will come through
+        the factory).  A layer lock that is an object of a Python class with acquire/release (defined in a yowsup
+        module) stays where it is: its CLASS is instrumented (`custom`).  Anything else that is not ours (the library
         stopped calling threading.Lock() where we can see it) gets an instrumented lock assigned, as before, and is
-        listed; a layer without a lock yet is left alone (lazy creation will come through the factory)."""
+        listed (`fallback`)."""
         self.layers = dict(layers)
         self.extra = list(extra)
         for name, layer in self.layers.items():
             cur = getattr(layer, "lock", None)
             if name in self.known and cur is not None and not isinstance(cur, CLock):
+                cls = type(cur)
+                if (getattr(cls, "__module__", "") or "").startswith("yowsup") and \
+                        hasattr(getattr(cls, "acquire", None), "__code__") and hasattr(cls, "release"):
+                    instrument_lock_class(cls)
+                    self.custom[name] = "%s.%s" % (cls.__module__, cls.__name__)
+                    continue
                 layer.lock = CLock(self, layer, ("layers/__init__.py", "__init__"))
                 self.fallback.append(name)
         for obj, attr, name in self.extra:
@@ -193,6 +438,27 @@ class LockCtl(object):
         name = self.resolve(lk)
         if name in self.known:
             self.emit(kind, name, lk)
+        elif name is None:
+            # a lock that is no layer's lock (e.g. the inner mutex of a hand-written lock class): scheduling only
+            lab = "Lock@%s" % (type(lk.owner).__name__ if lk.owner is not None else "?")
+            if kind == "acq":
+                self.emit("sacq", lab, lk, lambda: not lk.real.locked())
+            else:
+                self.emit("s" + kind, lab, lk)
+
+    def sync(self, prim, kind, pred):
+        if self.sched is not None:
+            self.emit(kind, prim.label(), prim, pred)
+
+    def boundary(self, lockobj, kind):
+        """acquire-return / release-call of a layer lock whose class is instrumented"""
+        if self.sched is None:
+            return
+        for name, layer in self.layers.items():
+            if name in self.known and getattr(layer, "__dict__", {}).get("lock") is lockobj:
+                h = self._handles.setdefault(id(lockobj), _Handle(lockobj))
+                self.emit(kind, name, h)
+                return
 
     def created(self, lk):
         if self.sched is None:
@@ -205,8 +471,15 @@ class LockCtl(object):
         if self.sched is not None and self.line_mode:
             self.emit("line", lineno, None)
 
-    def emit(self, kind, name, lk):
+    def emit(self, kind, name, lk, pred=None):
         raise NotImplementedError
+
+
+class _Handle(object):
+    def __init__(self, obj):
+        self.obj = obj
+        CLock._count[0] += 1
+        self.uid = CLock._count[0]
 
 
 def yowlayer_codes(helpers):
@@ -225,7 +498,11 @@ def yowlayer_codes(helpers):
         seen.append(n)
         if helpers:
             todo.extend(x for x in funcs[n].__code__.co_names if x in funcs and x not in seen)
-    return [funcs[n].__code__ for n in seen]
+    codes = [funcs[n].__code__ for n in seen]
+    if helpers:
+        for cls_codes in CUSTOM_CLASSES.values():
+            codes.extend(c for c in cls_codes if c not in codes)
+    return codes
 
 
 class LineMode(object):
@@ -292,6 +569,8 @@ class HSched(object):
         self.lock_uids = {}       # site name -> set of distinct lock objects acquired under that name
         self.lock_created = 0     # locks created by scheduled threads during the run
         self.unknown_ops = 0      # operations the model does not know (busy try-locks)
+        self.inside = {}          # layer -> threads between acquire-return and release-call of its lock
+        self.mutex_violations = []
 
     def tid(self):
         return self.tids.get(threading.get_ident())
@@ -403,8 +682,16 @@ class HSched(object):
                 k = self.chooser(len(self.choices), runnable, self)
                 tid = runnable[k]
                 rec, _, lk = self.pending.pop(tid)
-                if rec[1] == "acq" and lk is not None:
+                if rec[1] == "acq!":
+                    rec[1] = "acq"              # acquire() of an instrumented lock CLASS has returned
+                if rec[1] == "xbusy":
+                    rec[1], rec[3] = "try", "busy"
+                    self.unknown_ops += 1
+                elif rec[1] == "acq" and lk is not None:
                     self.lock_uids.setdefault(rec[2], set()).add(lk.uid)
+                    note_exclusion(self, len(self.trace), "acq", rec[2], tid)
+                elif rec[1] == "rel":
+                    note_exclusion(self, len(self.trace), "rel", rec[2], tid)
                 elif rec[1] == "try" and lk is not None:
                     if lk.real.locked():
                         rec[3] = "busy"
@@ -412,6 +699,7 @@ class HSched(object):
                     else:
                         rec[3] = "got"
                         self.lock_uids.setdefault(rec[2], set()).add(lk.uid)
+                        note_exclusion(self, len(self.trace), "acq", rec[2], tid)
                 elif rec[1] == "mklock":
                     self.lock_created += 1
                 self.options.append(len(runnable))
@@ -433,16 +721,31 @@ class HSched(object):
 
 
 class HCtl(LockCtl):
-    def emit(self, kind, name, lk):
+    def emit(self, kind, name, lk, pred=None):
         s = self.sched
         if s is None or s.tid() is None:
             return
         if kind == "acq":
             s.yield_("acq", name, (lambda: not lk.real.locked()), lock=lk)
-        elif kind == "try":
-            s.yield_("try", name, None, lock=lk)
+        elif kind in ("try", "acq!", "xbusy", "rel"):
+            s.yield_(kind, name, None, lock=lk)
         else:
-            s.yield_(kind, name)
+            s.yield_(kind, name, pred)
+
+
+def note_exclusion(sched, step, kind, name, tid):
+    """the property-level invariant behind the lock chain, checked on the trace itself: at most one thread is
+    between the return of a layer lock's acquire and the call of its release"""
+    inside = sched.inside.setdefault(name, [])
+    if kind == "acq":
+        others = [t for t in inside if t != tid]
+        if others:
+            sched.mutex_violations.append(
+                "mutual exclusion: at step %d thread %d got the lock of layer %s while thread %d is still between "
+                "its acquire and its release" % (step, tid, name, others[0]))
+        inside.append(tid)
+    elif kind == "rel" and tid in inside:
+        inside.remove(tid)
 
 
 class HQueue(object):
@@ -690,6 +993,8 @@ def hs_oracle(bench, senders, s):
         probs.append("stuck: " + s.stuck)    # (a block the scheduler cannot see is a limit of the tie, not a finding)
     if s.errors:
         probs.append("died: a thread died: %r" % s.errors)
+    for m in s.mutex_violations[:2]:
+        probs.append("exclusion: " + m)
     p = bench.peer()
     if p["errors"]:
         probs.append("order: the in-order peer: %s" % "; ".join(p["errors"][:3]))
